@@ -1,6 +1,7 @@
 """C15 — processes sharing a token directory see each other's committed changes."""
+import re, sys, concurrent.futures
 from ..main import k_suite, Violation, parse_mismatch, Trace
-from .. import gen
+from .. import gen, core, overlap
 
 LEAN_MODULES = ["Shm.Props.C15"]
 GEN_TABLES = ["AttrTable.lean"]
@@ -10,9 +11,14 @@ RULE = ("K15-processes: 2 or 3 real processes (p11drv -i, one per library instan
         "granularity: process 0 initialises the token, every process opens its own R/W session and logs in (one process may call C_Initialize late), then random "
         "interleavings of C_CreateObject / C_CopyObject / C_SetAttributeValue / C_DestroyObject / C_GetAttributeValue / C_FindObjects* on public and private token "
         "objects (data objects and AES keys) and on session objects; a process reaches another process's object only through its own search by label. Every return code, "
-        "every set of handles found and every attribute value read is compared with the multi-process Lean model (`adopt` at every change of process).")
+        "every set of handles found and every attribute value read is compared with the multi-process Lean model (`adopt` at every change of process). "
+        "K15-overlap (file-operation granularity): for 64 pairs (a writing call A of process 0: C_SetAttributeValue on a public / private / key / 12 kB object, "
+        "C_DestroyObject, C_CreateObject public / private, C_CopyObject; calls B of process 1: read, search, change, destroy, create, search for A's new object) A is PAUSED "
+        "inside the library at its k-th libc file operation (the harness's interposition; every k, quick: a fixed sample), process 1 runs its calls - they answer, or block "
+        "on A's fcntl lock until A goes on - and the run is judged by linearizability against the multi-process model: some order of the overlapping calls must explain "
+        "every result, including both processes' reads and searches afterwards.")
 TRUSTED = ["C++ harness p11drv in interactive mode + python coordinator vlib/multi.py (sequentially consistent interleaving: a call is sent only after the previous one answered)"]
-ASSUMPTIONS = ["interleaving at CALL granularity: two calls of different processes never overlap in time; overlapping writers (file-operation granularity, fcntl locks) are not exercised",
+ASSUMPTIONS = ["overlap is explored for ONE paused call at a time, at the libc file operations the harness interposes (open for writing, fwrite, fflush, fclose, ftruncate, remove, mkdir, rmdir); two calls running truly in parallel, and pauses between a lock and the first write, are not explored",
                "the token is initialised before the other processes call C_Initialize; PIN changes and C_InitToken by one process while others run are not exercised",
                "file object store, OpenSSL backend"]
 
@@ -30,8 +36,71 @@ def traces(ctx):
     return [Trace("mp%d" % i, gen.multiproc_history(ctx.seed * 5003 + i, 2 + (i % 3 == 2), 70 if ctx.quick else 140)) for i in range(n)]
 
 
+def overlap_ops(sc, k):
+    name, pre, a, bs, suf = sc
+    return pre + "P0 pauseat %d\n" % k + a + "\n" + "".join(b + "\n" for b in bs) + "P0 resume\n" + suf
+
+
+def overlap_one(sc, k):
+    with core.Scratch("ov") as d:
+        rc, calls, info = overlap.run_overlap(overlap_ops(sc, k), d.dir)
+    if rc != 0: return {"k": k, "sig": "crash", "text": "a process died or hung (rc=%s): %s" % (rc, info["stderr"][-800:]), "info": info, "calls": calls}
+    if not info["paused"]: return {"k": k, "sig": None, "notpaused": True, "info": info, "calls": calls}
+    ok, tried, detail, tx = overlap.judge(calls)
+    if ok: return {"k": k, "sig": None, "info": info, "calls": calls}
+    m = re.search(r"cat=(\w+) op=(\w+)", detail); rv = re.search(r"rv: model (\S+) impl (\S+)", detail)
+    sg = ("%s.%s%s" % (m.group(2), m.group(1), (".model%s.impl%s" % (rv.group(1), rv.group(2))) if rv else "")) if m else "unexplained"
+    return {"k": k, "sig": sg, "text": "no order of the overlapping calls explains the run (%d tried); closest: %s" % (tried, detail[:600]), "info": info, "calls": calls}
+
+
+def overlap_scenario(args):
+    sc, quick = args
+    out = []
+    ks = [1, 2, 3, 4, 6, 9, 13, 18, 24, 31, 39, 48, 58] if quick else range(1, 200)
+    for k in ks:
+        r = overlap_one(sc, k); out.append(r)
+        if r.get("notpaused"): break
+    return sc, out
+
+
 def run_k(ctx, kres):
-    return k_suite(ctx, kres, "K15-processes", traces(ctx), in_projection, sig_of=sig_of, shrink_budget=60)
+    v = k_suite(ctx, kres, "K15-processes", traces(ctx), in_projection, sig_of=sig_of, shrink_budget=60)
+    # ---- K15-overlap: one call paused at its k-th file operation, the other process's calls inside -------------------------------
+    kres["suites"] += 1
+    scen = gen.overlap_scenarios()
+    if ctx.quick: scen = [s for i, s in enumerate(scen) if (i + ctx.seed) % 2 == 0 or s[0] in ("create/find", "copy/find", "destroy/destroy", "setattr/change", "setattr-big/read-big")]
+    seen, paused, blocked = set(), 0, 0
+    with concurrent.futures.ThreadPoolExecutor(core.JOBS) as ex:
+        for sc, rs in ex.map(overlap_scenario, [(s, ctx.quick) for s in scen]):
+            for r in rs:
+                kres["evaluations"] += len(r["calls"])
+                if r.get("notpaused"): continue
+                paused += 1; blocked += r["info"]["blocked"]
+                kres["hist"]["overlap:%s" % sc[0].split("/")[0]] = kres["hist"].get("overlap:%s" % sc[0].split("/")[0], 0) + 1
+                if r["sig"]:
+                    sg = "overlap:%s:%s" % (sc[0], r["sig"])
+                    if sg in seen: continue
+                    seen.add(sg)
+                    log = "".join("## P%d %s => %s\n" % (c["tid"], c["op"][:160], (c["res"] or "")[:200]) for c in r["calls"][-14:])
+                    v.append(Violation(sg, "scenario %s, process 0 paused at file operation %d of `%s`: %s" % (sc[0], r["k"], sc[2][3:120], r["text"]),
+                                       "## overlap scenario=%s k=%d\n" % (sc[0], r["k"]) + overlap_ops(sc, r["k"]) + log))
+    kres["notes"].append("K15-overlap: %d scenarios, %d runs with process 0 paused inside its call, %d calls of process 1 blocked on a lock of the paused call" % (len(scen), paused, blocked))
+    return v
+
+
+def replay(ctx, path):
+    text = open(path).read()
+    m = re.search(r"## overlap scenario=(\S+) k=(\d+)", text)
+    if not m:
+        from .. import main as _m
+        mod = sys.modules[__name__]; saved = mod.replay; del mod.replay
+        try: return _m.replay(mod, ctx, path)
+        finally: mod.replay = saved
+    sc = next(s for s in gen.overlap_scenarios() if s[0] == m.group(1))
+    r = overlap_one(sc, int(m.group(2)))
+    for c in r["calls"]: print("P%d %s\n  => %s" % (c["tid"], c["op"][:200], (c["res"] or "")[:300]))
+    if r["sig"]: print("JUDGEMENT: violates C15 (%s): %s" % (r["sig"], r["text"])); return 1
+    print("JUDGEMENT: no violation of C15 on this replay"); return 0
 
 
 def judge(ctx, results):
@@ -49,7 +118,7 @@ LEVEL_TEXT = ("Lean 4 theorems (lean/Shm/Props/C15.lean) over a multi-process mo
               "duplicated (C15_adopt_view); its own sessions, handles and session objects are untouched and no session object crosses (C15_adopt_keeps_own, "
               "C15_adopt_session_objects); a handle to an object another process destroyed resolves to nothing (C15_destroyed_handle_dead); a process starting later reads "
               "exactly the committed store (C15_spawn_view). Tie to the code: real processes interleaved at call granularity are compared call by call with this model.")
-LEVEL_NOTE = ("PARTIAL with respect to the property's quantifier: interleavings at call granularity only. What the model cannot exhibit is two calls overlapping in time "
-              "(file-operation granularity, the fcntl locking of File::lock and the transaction lock file): that part is neither modelled nor exercised. Trusted: Lean kernel "
-              "+ standard axioms; the hand model validated by the correspondence; the coordinator.")
+LEVEL_NOTE = ("The theorems speak about hand-overs between calls. Overlapping calls are runtime behaviour the sequential model does not exhibit by itself: they are explored "
+              "(one call paused at each of its file operations) and judged by linearizability against the model; on this tree a search that falls inside another process's "
+              "object creation sees the half-made object (known finding). Trusted: Lean kernel + standard axioms; the hand model validated by the correspondence; the coordinators.")
 TECHNIQUE = "Lean 4 theorems over a hand-written multi-process refinement of the state model; correspondence by a coordinator interleaving real processes at call granularity"
